@@ -6,7 +6,7 @@ from hypothesis import strategies as st
 
 from torchjd import backward, mtl_backward
 from torchjd.aggregation import Sum
-from vlib import programs as P
+from vlib import jdcheck, programs as P
 from vlib.probes import Recording
 from vlib.matrices import eps_of
 from vlib.runner import Outcome, Part
@@ -108,6 +108,15 @@ def _apply_jd_with(g, prog, op, agg):
                      retain_graph=op["retain"], parallel_chunk_size=op["k"])
 
 
+def _acc_inplace(leaf, gr):
+    if gr is None:
+        gr = torch.zeros_like(leaf)
+    if leaf.grad is None:
+        leaf.grad = gr.clone()
+    else:
+        leaf.grad += gr
+
+
 def _acc(leaf, gr):
     if gr is None:
         gr = torch.zeros_like(leaf)
@@ -117,12 +126,15 @@ def _acc(leaf, gr):
 def _apply_torch_equiv(g, prog, op):
     """Textbook torch.autograd equivalent of a torchjd call with the Sum aggregator."""
     if op["type"] == "jd_backward":
+        # torch.autograd.backward accumulates IN PLACE into existing .grad fields, like torchjd does (this matters when
+        # torch itself left two leaves with .grad views of one buffer); unreachable inputs are materialised as zeros
         tensors = [g.get(r) for r in op["outs"]]
         inputs = [g.leaves[i] for i in op["inputs"]]
-        grads = torch.autograd.grad(tensors, inputs, [torch.ones_like(t) for t in tensors], retain_graph=op["retain"],
-                                    allow_unused=True)
-        for leaf, gr in zip(inputs, grads):
-            _acc(leaf, gr)
+        had = [leaf.grad is not None for leaf in inputs]
+        torch.autograd.backward(tensors, [torch.ones_like(t) for t in tensors], inputs=inputs, retain_graph=op["retain"])
+        for leaf, h in zip(inputs, had):
+            if leaf.grad is None and not h:
+                leaf.grad = torch.zeros_like(leaf)
         return
     feats = [g.get(f) for f in prog["features"]]
     cots = [torch.zeros_like(f) for f in feats]
@@ -130,14 +142,14 @@ def _apply_torch_equiv(g, prog, op):
         params = [g.leaves[p] for p in plist]
         grads = torch.autograd.grad(g.get(loss_ref), params + feats, retain_graph=op["retain"], allow_unused=True)
         for leaf, gr in zip(params, grads[: len(params)]):
-            _acc(leaf, gr)
+            _acc_inplace(leaf, gr)
         for j, gr in enumerate(grads[len(params) :]):
             if gr is not None:
                 cots[j] = cots[j] + gr
     shared = [g.leaves[p] for p in prog["shared_leaves"]]
     grads = torch.autograd.grad(feats, shared, cots, retain_graph=op["retain"], allow_unused=True)
     for leaf, gr in zip(shared, grads):
-        _acc(leaf, gr)
+        _acc_inplace(leaf, gr)
 
 
 def _apply_torch(g, op):
@@ -169,7 +181,7 @@ def run_case(case) -> Outcome:
     out = Outcome()
     prog, dtype = case["prog"], case["prog"]["dtype"]
     dual = P.run_dual(prog)
-    if not dual.max_abs < 1e6:
+    if not jdcheck.scale_ok(dtype, dual.max_abs):
         out.excluded = "values-or-tangents-exceed-1e6"
         return out
     g1, g2 = P.TorchGraph(prog), P.TorchGraph(prog)
